@@ -337,8 +337,19 @@ func (j *c12Judge) judge(op *world.Op, res *world.Result, preExists map[string]b
 		keys = append(keys, k)
 	}
 	sort.Strings(keys)
+	// an object whose deletion the cluster itself rejected may stay (the second injected fault): not judged - everything
+	// else, in particular the clean-up of the hooks that succeeded before, still is
+	rejectedDelete := map[string]bool{}
+	for _, e := range res.Events {
+		if e.Layer == "kube" && e.Verb == "DELETE" && e.Injected {
+			rejectedDelete[e.Key] = true
+		}
+	}
 	for _, p := range keys {
 		live := j.w.Cluster.Get(p) != nil
+		if rejectedDelete[p] {
+			continue
+		}
 		if live != m.exists[p] {
 			h := byPath[p]
 			return j.fail("C12:hook-object-existence-contradicts-delete-policy/"+ctx, fmt.Sprintf("%s policies %v: exists=%v, expected %v; %s", p, h.Policies, live, m.exists[p], hs)), info
@@ -443,7 +454,14 @@ func c12Prop(t *rapid.T) {
 			}
 			lbl["atomic-upgrade"] = true
 		} else if len(cand) > 0 && rapid.IntRange(0, 2).Draw(t, "failAHook") == 0 {
-			op.Fault = world.Fault{Kind: "waitmatch", Verb: "WatchUntilReady", Path: cand[rapid.IntRange(0, len(cand)-1).Draw(t, "failWhich")].Name}
+			fh := cand[rapid.IntRange(0, len(cand)-1).Draw(t, "failWhich")]
+			op.Fault = world.Fault{Kind: "waitmatch", Verb: "WatchUntilReady", Path: fh.Name}
+			// ... and the deletion of the failed hook (policy hook-failed) is rejected by the cluster as well: the hooks
+			// that succeeded before it must still be cleaned up
+			if hasPolicy(fh, "hook-failed") && rapid.Bool().Draw(t, "deleteOfFailedHookRejected") {
+				op.Also = world.Fault{Kind: "kubematch", Verb: "DELETE", Path: fh.Path(), Code: 500}
+				lbl["delete-of-failed-hook-rejected"] = true
+			}
 		}
 		j.ops = append(j.ops, op)
 		pre := c12HookExistence(w)
@@ -479,7 +497,7 @@ func c12Prop(t *rapid.T) {
 }
 
 func TestC12(t *testing.T) {
-	evid.Extra("rule", "C12: rapid-generated histories (1..5 operations quick, 1..8 thorough) of install/upgrade/rollback/uninstall whose charts carry 0-5 hooks (object names a shuffled subset of h0..h9, kinds ConfigMap/Pod/Job/Secret, 1-4 of the 8 lifecycle events, weights -5..5 with forced ties or absent, every delete-policy combination or none); in a third of the operations the completion wait of one chosen hook fails. From the global order of cluster requests and waiter calls the check compares with a reference model of the documented semantics: creation order per event (ascending weight, ties by name, stop at the first failure), each create after the previous hook completed, delete-before-create iff before-hook-creation (default when no policy), existence of every hook object afterwards per policy and outcome (including 409 on a leftover without before-hook-creation), pre-hook failure => error, no write to a release resource and no later hook, post-hook failure => error, no hook object in any stored manifest, no hook created with hooks disabled. Non-trivial = an event with at least two hooks, or a failing hook, or a leftover hook object present when hooks run; distinct by the full history with hook sets.")
+	evid.Extra("rule", "C12: rapid-generated histories (1..5 operations quick, 1..8 thorough) of install/upgrade/rollback/uninstall whose charts carry 0-5 hooks (object names a shuffled subset of h0..h9, kinds ConfigMap/Pod/Job/Secret, 1-4 of the 8 lifecycle events, weights -5..5 with forced ties or absent, every delete-policy combination or none); in a third of the operations the completion wait of one chosen hook fails; one upgrade in five runs with --atomic (hooks on or off) and a failing readiness wait, where only 'hooks disabled => no hook object is created, also not by the internal rollback' is judged. From the global order of cluster requests and waiter calls the check compares with a reference model of the documented semantics: creation order per event (ascending weight, ties by name, stop at the first failure), each create after the previous hook completed, delete-before-create iff before-hook-creation (default when no policy), existence of every hook object afterwards per policy and outcome (including 409 on a leftover without before-hook-creation), pre-hook failure => error, no write to a release resource and no later hook, post-hook failure => error, no hook object in any stored manifest, no hook created with hooks disabled. Non-trivial = an event with at least two hooks, or a failing hook, or a leftover hook object present when hooks run; distinct by the full history with hook sets.")
 	evid.Extra("assumptions", []string{"hook completion is a scripted waiter outcome (WatchUntilReady)", "atomic / cleanup-on-fail are off here (C03)", "hook log output policies and CRD hooks are not generated"})
 	rapid.Check(t, c12Prop)
 }
